@@ -63,7 +63,7 @@ Record hres := mkRes {
   r_inserts : list (f64 * list Z * bool)   (* lifting.insert calls *)
 }.
 
-Inductive hkind := TL | TLB | PW2 | FIXED | SUMMED.
+Inductive hkind := TL | TLB | PW2 | FIXED | SUMMED | ROOTTL | ROOTSUM | CELLB | CCELLB | LCV | CCV.
 
 Definition bind {A B} (o : option A) (f : A -> option B) : option B :=
   match o with Some a => f a | None => None end.
@@ -371,9 +371,219 @@ Definition run_summed (env : henv) (fd : feeds) (st : list hunit) : option hres 
     Some (mkRes (repeat (e_beta env) nt) ((0%Q, f2q ber) :: snd sel) (calls1 ++ calls2 ++ calls3) T st1 out
                 (map (fun e => (fst (fst e), hu_id (getu st (snd (fst e))), snd e)) entries)).
 
-Definition run_handler (k : hkind) (env : henv) (fd : feeds) (st : list hunit) : option hres :=
+(** ** CompositeObjectsLifting._pass_composite_object_velocity (root mode: the whole composite object moves).
+    The velocity lists handed to _register_velocity_change_leaf_cnode are scaled IN PLACE by the parents' weights
+    at every registration, so the k-th leaf sees the list scaled k times (weights of root nodes are 1). *)
+Definition split_objects (st : list hunit) : list nat * list nat :=
+  let sl := sort_by_id st (leaf_idxs st) in
+  let half := Nat.div (length sl) 2 in
+  if forallb (fun i => negb (has_vel st i)) (skipn half sl) then (firstn half sl, skipn half sl)
+  else (skipn half sl, firstn half sl).
+
+Definition vec_eqb (a b : list f64) : bool :=
+  Nat.eqb (length a) (length b) && forallb (fun xy => feq (fst xy) (snd xy)) (combine a b).
+
+Definition pass_velocity (env : henv) (T : time) (st : list hunit) : option (list hunit) :=
+  let '(loc, tgt) := split_objects st in
+  v <- hu_vel (getu st (nth 0 loc 0%nat)) ;;
+  if negb (forallb (fun i => match hu_vel (getu st i) with Some w => vec_eqb w v | None => false end) loc
+           && forallb (fun i => negb (has_vel st i)) tgt) then None
+  else
+    let step (acc : list hunit * list (nat * list f64) * list f64 * list f64) (i : nat) :=
+        let '(cur, ch, nv, pv) := acc in
+        let u := getu cur i in
+        if existsb (Nat.eqb i) loc then
+          let cur' := set_unit cur i (mkHU (hu_id u) (hu_pos u) None None (hu_charge u) (hu_parent u) (hu_weight u)) in
+          match hu_parent u with
+          | Some p => (cur', add_change ch p (map (fun c => fmul c (hu_weight u)) nv),
+                       map (fun c => fmul c (hu_weight (getu st p))) nv, pv)
+          | None => (cur', ch, nv, pv)
+          end
+        else
+          let cur' := set_unit cur i (mkHU (hu_id u) (hu_pos u) (Some pv) (Some T) (hu_charge u) (hu_parent u)
+                                           (hu_weight u)) in
+          match hu_parent u with
+          | Some p => (cur', add_change ch p (map (fun c => fmul c (hu_weight u)) pv), nv,
+                       map (fun c => fmul c (hu_weight (getu st p))) pv)
+          | None => (cur', ch, nv, pv)
+          end in
+    let '(cur, ch, _, _) := fold_left step (leaf_idxs st) (st, [], map fopp v, v) in
+    all_some (map (fun k => commit_unit env T ch k (getu cur k)) (seq 0 (length cur))).
+
+(** RootUnitActiveTwoLeafUnitEventHandler: send_event_time of TwoLeafUnitEventHandler on the two branches [st];
+    send_out_state(fresh root cnodes [st2]): time-slice them, pass the velocity of the composite object. *)
+Definition run_root_tl (env : henv) (fd : feeds) (st st2 : list hunit) : option hres :=
+  r <- run_two_leaf TL env fd st ;;
+  s2 <- slice_all env (r_time r) st2 ;;
+  out <- pass_velocity env (r_time r) s2 ;;
+  Some (mkRes (r_expo r) [] (r_calls r) (r_time r) (r_state1 r) out []).
+
+(** RootUnitActiveTwoCompositeObjectSummedBoundingPotentialEventHandler *)
+Definition run_root_sum (env : henv) (fd : feeds) (st st2 : list hunit) : option hres :=
+  let '(loc, tgt) := split_objects st in
+  let l0 := getu st (nth 0 loc 0%nat) in
+  v0 <- hu_vel l0 ;; ts <- hu_ts l0 ;;
+  if negb (forallb (fun i => match hu_vel (getu st i) with Some w => vec_eqb w v0 | None => false end) loc) then None
+  else
+    let pairs := flat_map (fun l => map (fun t => (l, t)) tgt) loc in
+    let np := length pairs in
+    let vel_of (cur : list hunit) (i : nat) := match hu_vel (getu cur i) with Some w => w | None => [] end in
+    seps1 <- all_some (map (fun lt => sepv env (hu_pos (getu st (fst lt))) (hu_pos (getu st (snd lt)))) pairs) ;;
+    let calls1 := map (fun k => let lt := nth k pairs (0%nat, 0%nat) in
+                                mkPC 2 (vel_of st (fst lt)) [nth k seps1 []] (charges env st (fst lt) (snd lt))
+                                     (Some (g (fd_expo fd) k))) (seq 0 np) in
+    let T := time_add ts (pymin_list (firstn np (fd_bdisp fd))) in
+    st1 <- slice_all env T st ;;
+    seps' <- all_some (map (fun lt => sepv env (hu_pos (getu st1 (fst lt))) (hu_pos (getu st1 (snd lt)))) pairs) ;;
+    let calls2 := flat_map (fun k => let lt := nth k pairs (0%nat, 0%nat) in
+                                     [mkPC 3 (vel_of st1 (fst lt)) [nth k seps' []] (charges env st (fst lt) (snd lt)) None;
+                                      mkPC 1 (vel_of st1 (fst lt)) [nth k seps' []] (charges env st (fst lt) (snd lt)) None])
+                           (seq 0 np) in
+    let ber := fold_left (fun acc k => fadd acc (pymax fzero (g (fd_bder fd) k))) (seq 0 np) fzero in
+    let fdv := fold_left (fun acc k => fadd acc (g (fd_der fd) k)) (seq 0 np) fzero in
+    s2 <- slice_all env T st2 ;;
+    let base := mkRes (repeat (e_beta env) np) [] (calls1 ++ calls2) T st1 s2 [] in
+    if flt fzero fdv then
+      let x := funiform (g (fd_unif fd) 0) fzero ber in
+      if flt x fdv then
+        out <- pass_velocity env T s2 ;;
+        Some (mkRes (repeat (e_beta env) np) [(0%Q, f2q ber)] (calls1 ++ calls2) T st1 out [])
+      else Some (mkRes (repeat (e_beta env) np) [(0%Q, f2q ber)] (calls1 ++ calls2) T st1 s2 [])
+    else Some base.
+
+(** Out-state of a composite-object event whose bounding event rate [b] is already known (cell bounding
+    potential: returned by bounding_potential.derivative; cell veto: stored by send_event_time):
+    pairwise derivatives with the target units, thinning, _fill_lifting, lifting, velocity hand-over.
+    [d0]: index of the first derivative value consumed. *)
+Definition comp_out (env : henv) (fd : feeds) (st0 st1 : list hunit) (T : time) (a : nat) (loc tgt : list nat)
+           (b : f64) (use_rate : bool) : option (list (Q * Q) * list pcall * list hunit * list (f64 * list Z * bool)) :=
+  let ua1 := getu st1 a in
+  va <- hu_vel ua1 ;;
+  let nt := length tgt in
+  let apos := match filter (fun k => Nat.eqb (nth k loc 0%nat) a) (seq 0 (length loc)) with k :: _ => k | [] => 0%nat end in
+  seps' <- all_some (map (fun t => sepv env (hu_pos ua1) (hu_pos (getu st1 t))) tgt) ;;
+  let calls2 := map (fun k => mkPC 1 va [nth k seps' []] (charges env st0 a (nth k tgt 0%nat)) None) (seq 0 nt) in
+  let fdv := fold_left (fun acc k => fadd acc (g (fd_der fd) k)) (seq 0 nt) fzero in
+  let tgt0 := map (fun k => fsub fzero (g (fd_der fd) k)) (seq 0 nt) in
+  let event_rate := pymax fzero fdv in
+  let x := funiform (g (fd_unif fd) 0) fzero b in
+  if fle event_rate x then Some ([(0%Q, f2q b)], calls2, st1, [])
+  else
+    let others := filter (fun k => negb (Nat.eqb k apos)) (seq 0 (length loc)) in
+    let rank_of (k : nat) : nat := length (filter (fun j => Nat.ltb j k) others) in
+    let der_at (k t : nat) : f64 := g (fd_der fd) (nt + rank_of k * nt + t) in
+    seps3 <- all_some (flat_map (fun k => map (fun t => sepv env (hu_pos (getu st1 (nth k loc 0%nat)))
+                                                                (hu_pos (getu st1 (nth t tgt 0%nat)))) (seq 0 nt)) others) ;;
+    let calls3 := flat_map (fun k => map (fun t => mkPC 1 va [nth (rank_of k * nt + t) seps3 []]
+                                                        (charges env st0 (nth k loc 0%nat) (nth t tgt 0%nat)) None)
+                                         (seq 0 nt)) others in
+    let loc_rates := map (fun k => if Nat.eqb k apos then (if use_rate then event_rate else fdv)
+                                   else fold_left (fun acc t => fadd acc (der_at k t)) (seq 0 nt) fzero)
+                         (seq 0 (length loc)) in
+    let tgt_rates := map (fun t => fold_left (fun acc k => fsub acc (der_at k t)) others (g tgt0 t)) (seq 0 nt) in
+    let local_first := match hu_id (getu st0 (nth 0 loc 0%nat)), hu_id (getu st0 (nth 0 tgt 0%nat)) with
+                       | x :: _, y :: _ => Z.ltb x y
+                       | _, _ => false
+                       end in
+    let loc_entries := map (fun k => (g loc_rates k, nth k loc 0%nat, Nat.eqb k apos)) (seq 0 (length loc)) in
+    let tgt_entries := map (fun t => (g tgt_rates t, nth t tgt 0%nat, false)) (seq 0 nt) in
+    let entries := if local_first then loc_entries ++ tgt_entries else tgt_entries ++ loc_entries in
+    let rates := map (fun e => fst (fst e)) entries in
+    let active_rank := if local_first then apos else (nt + apos)%nat in
+    sel <- lift_select env rates active_rank (g (fd_unif fd) 1) (g (fd_unif fd) 2) ;;
+    let target_unit := snd (fst (nth (fst sel) entries (fnan, 0%nat, false))) in
+    out <- exchange env T st1 a target_unit ;;
+    Some ((0%Q, f2q b) :: snd sel, calls2 ++ calls3, out,
+          map (fun e => (fst (fst e), hu_id (getu st0 (snd (fst e))), snd e)) entries).
+
+(** Cell-bounding handlers: the bounding potential is called with the RELATIVE CELL instead of a separation; the
+    cell (an opaque object of the cell system) is represented by the one-entry vector [fd_disp[0]]. *)
+Definition run_cellb (env : henv) (fd : feeds) (st : list hunit) : option hres :=
+  let leaves := leaf_idxs st in
+  match leaves with
+  | [i0; i1] =>
+      ap <- active_pos st leaves ;;
+      let a := nth ap leaves 0%nat in
+      let o := nth (1 - ap) leaves 0%nat in
+      let ua := getu st a in
+      va <- hu_vel ua ;; ts <- hu_ts ua ;;
+      let cell := [g (fd_disp fd) 0] in
+      let ch := charges env st i0 i1 in
+      let T := time_add ts (g (fd_bdisp fd) 0) in
+      st1 <- slice_all env T st ;;
+      sep' <- sepv env (hu_pos (getu st1 a)) (hu_pos (getu st1 o)) ;;
+      r <- confirm2 env T st1 a o (g (fd_bder fd) 0) (g (fd_der fd) 0) (g (fd_unif fd) 0) ;;
+      Some (mkRes [e_beta env] (fst r)
+                  [mkPC 2 va [cell] ch (Some (g (fd_expo fd) 0)); mkPC 3 va [cell] ch None; mkPC 1 va [sep'] ch None]
+                  T st1 (snd r) [])
+  | _ => None
+  end.
+
+Definition run_ccellb (env : henv) (fd : feeds) (st : list hunit) : option hres :=
+  let '(loc, tgt) := split_objects st in
+  ap <- active_pos st loc ;;
+  let a := nth ap loc 0%nat in
+  let ua := getu st a in
+  va <- hu_vel ua ;; ts <- hu_ts ua ;;
+  let cell := [g (fd_disp fd) 0] in
+  let bch := if e_charge env then hu_charge ua :: map (fun t => hu_charge (getu st t)) tgt
+             else repeat fone (e_ncharge env) in
+  let T := time_add ts (g (fd_bdisp fd) 0) in
+  st1 <- slice_all env T st ;;
+  let b := g (fd_bder fd) 0 in
+  r <- comp_out env fd st st1 T a loc tgt b false ;;
+  let '(unif, calls, out, ins) := r in
+  Some (mkRes [e_beta env] unif
+              ([mkPC 2 va [cell] bch (Some (g (fd_expo fd) 0)); mkPC 3 va [cell] bch None] ++ calls) T st1 out ins).
+
+(** Cell-veto handlers, send_out_state only.  [st] = the units of the stored in-state (the first [e_seps[0]] units)
+    followed by the units of the target root cnode handed over by the mediator (none: target cell empty).
+    The event time and the stored bounding event rate of send_event_time are inputs: fd_bdisp = [quotient;
+    remainder], fd_bder = [rate] (send_event_time itself: C18 glue). *)
+Definition run_cv (k : hkind) (env : henv) (fd : feeds) (st : list hunit) : option hres :=
+  let na := nth 0 (e_seps env) 0%nat in
+  let T := mkTime (g (fd_bdisp fd) 0) (g (fd_bdisp fd) 1) in
+  let b := g (fd_bder fd) 0 in
+  s_act <- slice_all env T (firstn na st) ;;
+  let st1 := s_act ++ skipn na st in
+  if Nat.eqb na (length st) then Some (mkRes [] [] [] T st1 st1 [])
+  else
+    match k with
+    | LCV =>
+        let leaves := leaf_idxs st1 in
+        match leaves with
+        | [i0; i1] =>
+            ap <- active_pos st1 leaves ;;
+            let a := nth ap leaves 0%nat in
+            let o := nth (1 - ap) leaves 0%nat in
+            va <- hu_vel (getu st1 a) ;;
+            sep' <- sepv env (hu_pos (getu st1 a)) (hu_pos (getu st1 o)) ;;
+            r <- confirm2 env T st1 a o b (g (fd_der fd) 0) (g (fd_unif fd) 0) ;;
+            Some (mkRes [] (fst r) [mkPC 1 va [sep'] (charges env st i0 i1) None] T st1 (snd r) [])
+        | _ => None
+        end
+    | CCV =>
+        let '(loc, tgt) := split_objects st1 in
+        ap <- active_pos st1 loc ;;
+        let a := nth ap loc 0%nat in
+        r <- comp_out env fd st st1 T a loc tgt b false ;;
+        let '(unif, calls, out, ins) := r in
+        Some (mkRes [] unif calls T st1 out ins)
+    | _ => None
+    end.
+
+(** [st2]: the fresh root cnodes handed to send_out_state by the mediator (root-unit-active handlers only). *)
+Definition run_handler2 (k : hkind) (env : henv) (fd : feeds) (st st2 : list hunit) : option hres :=
   match k with
   | TL | TLB | PW2 => run_two_leaf k env fd st
   | FIXED => run_fixed env fd st
   | SUMMED => run_summed env fd st
+  | ROOTTL => run_root_tl env fd st st2
+  | ROOTSUM => run_root_sum env fd st st2
+  | CELLB => run_cellb env fd st
+  | CCELLB => run_ccellb env fd st
+  | LCV | CCV => run_cv k env fd st
   end.
+
+Definition run_handler (k : hkind) (env : henv) (fd : feeds) (st : list hunit) : option hres :=
+  run_handler2 k env fd st st.
